@@ -246,6 +246,14 @@ func SpecWithHeader(lines []string, has bool) []string {
 	return append([]string{"##! Please refer to the documentation at\n##! https://coreruleset.org/docs/development/regex_assembly/.\n"}, lines...)
 }
 
+// SpecKeepHeaderBlank: when nothing but the header is left, its empty line stays.
+func SpecKeepHeaderBlank(lines []string) []string {
+	if len(lines) == 3 && SpecHasHeader(lines) {
+		return append(append([]string{}, lines...), "")
+	}
+	return lines
+}
+
 //@ contract processFile
 //@   tags C09 C15 C16 C17
 //@   opt scan-complete C17
@@ -257,7 +265,7 @@ func SpecWithHeader(lines []string, has bool) []string {
 //@   ensures[C15] at-most-one-write: fsWrites() <= old(fsWrites())+1
 //@   ensures[C15] writes-own-path: implies(fsWrites() > old(fsWrites()), lastWritePath() == filePath)
 //@   checks[C09,C16] writes-formatted-bytes: implies(fsWrites() > old(fsWrites()), called(Join) && lastWriteData() == resultOf(Join, 0))
-//@   checks[C09,C10] formatted-text: implies(called(Join), resultOf(Join, 0) == utils.OpaqueJoinLines(SpecFmtEof(SpecWithHeader(SpecMapLines(scanLines(scanner), len(scanLines(scanner))), SpecHasHeader(SpecMapLines(scanLines(scanner), len(scanLines(scanner))))))))
+//@   checks[C09,C10] formatted-text: implies(called(Join), resultOf(Join, 0) == utils.OpaqueJoinLines(SpecKeepHeaderBlank(SpecFmtEof(SpecWithHeader(SpecMapLines(scanLines(scanner), len(scanLines(scanner))), SpecHasHeader(SpecMapLines(scanLines(scanner), len(scanLines(scanner)))))))))
 //@   checks[C16] error-means-no-write: implies(r != nil && !called(WriteFile), fsWrites() == old(fsWrites()))
 //@   checks[C09] check-verdict: implies(checkOnly && called(findUpperCaseCharacterClassOnIgnoreCaseFlag) && resultOf(ReadFile, 1) == nil, (r != nil) == (lastRead() != resultOf(Join, 0) || resultOf(findUpperCaseCharacterClassOnIgnoreCaseFlag, 0)))
 //@   checks[C09,C16] write-reported: implies(!checkOnly && called(WriteFile), (r != nil) == (resultOf(WriteFile, 0) != nil))
